@@ -60,6 +60,14 @@ def build(np, rng, cfg):
         B = B.copy()
         B[el[0], el[1]] += g
         B[el[1], el[0]] -= g                      # skew-symmetric part: B is no longer symmetric, M and K are
+    L = np.eye(n)
+    if cfg.get("lmul"):
+        for _ in range(50):
+            Le = np.eye(nel) + 0.3 * rng.standard_normal((nel, nel))
+            if np.linalg.cond(Le) <= 30:
+                break
+        L[np.ix_(el, el)] = Le
+        M, B, K = L @ M, L @ B, L @ K              # same response for forces L f; nothing is symmetric any more
     if cfg["mform"] == "none":
         marg = None
     elif cfg["mform"] == "vec":
@@ -70,7 +78,7 @@ def build(np, rng, cfg):
     barg = np.diag(B).copy() if diag else B
     karg = np.diag(K).copy() if diag else K
     wres = float(w[0])
-    return dict(n=n, md=md, bd=bd, kd=kd, scale=scale, T=T, M=M, B=B, K=K, marg=marg, barg=barg, karg=karg,
+    return dict(n=n, md=md, bd=bd, kd=kd, scale=scale, T=T, L=L, M=M, B=B, K=K, marg=marg, barg=barg, karg=karg,
                 rb=rbi, el=el, rf=rf, wres=wres)
 
 
@@ -108,7 +116,7 @@ def body(run: Run, replay):
         elif cfg["forder"] == "shuffled":
             freq = freq[rng.permutation(len(freq))]
         Fm = (rng.standard_normal((n, len(freq))) + 1j * rng.standard_normal((n, len(freq))))     # modal forces
-        Fp = s["T"].T @ (Fm * s["scale"][:, None])     # mass None: equations divided by the modal mass
+        Fp = s["L"] @ s["T"].T @ (Fm * s["scale"][:, None])     # mass None: equations divided by the modal mass
         if cfg["intform"]:
             inc_arg = {"": 0, "av": 1, "adv": 2}[incrb]
         else:
